@@ -70,7 +70,7 @@ func (mon) Plan(prop, tier string, seed int64) []drv.Shard {
 	thorough := tier == "thorough"
 	nrand := 300
 	if thorough {
-		nrand = 20000
+		nrand = 40000
 	}
 	switch prop {
 	case "C06", "C07":
@@ -109,7 +109,7 @@ func (mon) Plan(prop, tier string, seed int64) []drv.Shard {
 		parts = 3
 		n := 40
 		if thorough {
-			n = 600
+			n = 2000
 		}
 		for _, gmp := range []string{"GOMAXPROCS=2", "GOMAXPROCS=4", "GOMAXPROCS=16"} {
 			p := parts
